@@ -16,7 +16,9 @@
 #include <ctype.h>
 #include <math.h>
 #include <limits>
+#include <stdlib.h>
 #include <string.h>
+#include <string>
 
 #ifdef _WIN32
 #define strncasecmp _strnicmp
@@ -85,10 +87,16 @@ pstrtod(const char *nptr, char **endptr) {
     }
 
   } else {
-    // Start reading decimal digits to the left of the decimal point.
+    // Collect the decimal digits on both sides of the decimal point into a
+    // single digit string, remembering where the decimal point was by way of
+    // a decimal exponent.
+    std::string digits;
+    long exponent = 0;
     bool found_digits = false;
     while (isdigit(*p)) {
-      value = (value * 10.0) + (*p - '0');
+      if (*p != '0' || !digits.empty()) {
+        digits += *p;
+      }
       found_digits = true;
       ++p;
     }
@@ -96,12 +104,13 @@ pstrtod(const char *nptr, char **endptr) {
     if (*p == '.') {
       ++p;
       // Read decimal digits to the right of the decimal point.
-      double multiplicand = 0.1;
       while (isdigit(*p)) {
-        value += (*p - '0') * multiplicand;
-        ++p;
+        if (*p != '0' || !digits.empty()) {
+          digits += *p;
+        }
+        --exponent;
         found_digits = true;
-        multiplicand *= 0.1;
+        ++p;
       }
     }
 
@@ -123,19 +132,33 @@ pstrtod(const char *nptr, char **endptr) {
         ++p;
       }
 
-      // Start reading decimal digits to the left of the decimal point.
-      double evalue = 0.0;
+      // Anything beyond this limit overflows or underflows anyway.
+      const long max_exponent = 100000000;
+      long evalue = 0;
       while (isdigit(*p)) {
-        evalue = (evalue * 10.0) + (*p - '0');
+        if (evalue < max_exponent) {
+          evalue = (evalue * 10) + (*p - '0');
+        }
         ++p;
       }
 
       if (esign == '-') {
-        value /= pow(10.0, evalue);
+        exponent -= evalue;
       } else {
-        value *= pow(10.0, evalue);
+        exponent += evalue;
       }
     }
+
+    // Now let the system strtod do the actual conversion, so that the result
+    // is correctly rounded.  We have removed the decimal point, which is the
+    // only part of the syntax whose spelling depends on the locale, so this
+    // gives the same result under any LC_NUMERIC setting.
+    if (digits.empty()) {
+      digits += '0';
+    }
+    digits += 'e';
+    digits += std::to_string(exponent);
+    value = strtod(digits.c_str(), nullptr);
   }
 
   if (sign == '-') {
